@@ -83,7 +83,7 @@ Proof. exact sp_splice_perm. Qed.
 From AV.Model Require Import Base Bytes Vec Ops Interp.
 From AV.Spec Require Import WorldSpec.
 From AV.Proofs Require Import WorldProofs OwnHistory.
-(** WHOLE HISTORIES (this replaces the PARTIAL remark in the header for the fragment of AV.Props.C01).  On the list specification: after EVERY history the identities created so far are, as a multiset, exactly those visible in some vector + those destroyed + those leaked by a forgotten handle ([C03_history_accounting]); hence for non-zero-sized types nothing is destroyed twice, nothing destroyed or leaked is still visible, nothing is visible twice ([C03_history_exactly_once], [C03_history_no_double_drop]); when all vectors are gone and nothing was leaked, everything created was destroyed - for zero-sized types this is the accounting by count ([C03_history_all_destroyed]).  [C03_history_events_are_the_specs] transfers it to the byte-level machine: its destructor events in every step are the specification's (and its snapshots are the specification's lists, C01_history_snapshots). *)
+(** WHOLE HISTORIES (this replaces the PARTIAL remark in the header for the fragment of AV.Props.C01).  On the list specification: after EVERY history the identities created so far are, as a multiset, exactly those visible in some vector + those destroyed + those leaked by a forgotten handle ([C03_history_accounting]); hence for non-zero-sized types nothing is destroyed twice, nothing destroyed or leaked is still visible, nothing is visible twice ([C03_history_exactly_once], [C03_history_no_double_drop]); when all vectors are gone and nothing was leaked, everything created was destroyed - for zero-sized types this is the accounting by count ([C03_history_all_destroyed]).  [C03_history_events_are_the_specs] transfers it to the byte-level machine: its destructor events in every step are the specification's (and its snapshots are the specification's lists, C01_history_snapshots).  Moves of drained elements into other vectors: [C03_moving_drain_accounting]. *)
 (** one step *)
 Theorem C03_step_accounting :
   forall c : cfg,
@@ -142,6 +142,33 @@ Theorem C03_history_events_are_the_specs :
             filter Rep.is_user_event (world_events (sr_world sr)) = s_evs r) (run_hist c ops w) rs.
 Proof. exact history_events. Qed.
 
+(** drained items moved into other vectors, forgotten, destroyed or left to the iterator: every value of the range ends up in exactly one place, also when a move is refused and the iterator is dropped by the unwinding *)
+Theorem C03_moving_drain_accounting :
+  forall c : cfg,
+         c_dg c = true ->
+         forall (st : astate) (nx : N) (v : nat) (sb eb : bound) (pat : list (bool * sink)) 
+           (f : fin) (r : sres) (D L : list N),
+         sp_drain c st nx v sb eb pat f = None ->
+         sp_drain_mv c st nx v sb eb pat f = Some r ->
+         Permutation (created c nx) (vis st ++ D ++ L) ->
+         Permutation (created c (s_nx r))
+           (vis (s_st r) ++ (D ++ drops (s_evs r)) ++ L ++ leak_of c st nx (ODrain Erased v sb eb pat f)).
+Proof. exact drain_mv_own. Qed.
+
+Theorem C03_moving_walk_accounting :
+  forall c : cfg,
+         c_dg c = true ->
+         forall (v : nat) (xs : list N) (pat : list (bool * sink)) (i j : nat) (st : astate) (r : wres),
+         (i <= j)%nat ->
+         (j <= length xs)%nat ->
+         sp_walk_mv c v xs pat i j st = Some r ->
+         let
+         '(evs, i', j', st', lost) := wres_parts r in
+          Permutation (vis st ++ firstn (j - i) (skipn i xs))
+            (vis st' ++ drops evs ++ lost ++ firstn (j' - i') (skipn i' xs)) /\
+          (i <= i')%nat /\ (i' <= j')%nat /\ (j' <= j)%nat /\ get_a v st' = get_a v st.
+Proof. exact sp_walk_mv_perm. Qed.
+
 (* ---- end histories ---- *)
 Print Assumptions C03_step.
 Print Assumptions C03_no_double_drop.
@@ -162,3 +189,5 @@ Print Assumptions C03_history_exactly_once.
 Print Assumptions C03_history_no_double_drop.
 Print Assumptions C03_history_all_destroyed.
 Print Assumptions C03_history_events_are_the_specs.
+Print Assumptions C03_moving_drain_accounting.
+Print Assumptions C03_moving_walk_accounting.
